@@ -107,25 +107,31 @@ CONSTANT SPC = 4
 CONSTANT ROOT = %d
 CONSTANT MaxOps = %d
 CONSTANT Legacy = %s
+CONSTANT Features = %s
 INVARIANT StructInv
-INVARIANT FreeExact
+INVARIANT FreeExactMounted
 INVARIANT HintInRange
+INVARIANT DirtyBracket
+INVARIANT StatusNeverCleared
+INVARIANT FsInfoExact
 PROPERTY Refines
 CHECK_DEADLOCK FALSE
 """
 
 
 def mc_layer_b(wd, tag="b", deep=False):
-    """design-level model checking of Layer B (FatFsB): every history of the modelled algorithms up to the bound, on a fixed-root and a
-    chain-root volume; invariants StructInv (C03), FreeExact/HintInRange (C05), action property Refines (C01)"""
+    """design-level model checking of Layer B (FatFsB): every history of the modelled algorithms up to the bound, on a fixed-root volume
+    and on a chain-root volume with file handles (deferred entry write-back) and the mount/unmount protocol; invariants StructInv on the
+    effective view (C03, D-F20), FreeExactMounted / HintInRange / FsInfoExact (C05), DirtyBracket / StatusNeverCleared (C12), action
+    property Refines (C01)"""
     n, ops = ((4, 4) if deep else (4, 3)) if core.tier() == "quick" else (5, 5)
     out = {"spec": "FatFsB", "constants": {"N": n, "SPC": 4, "MaxOps": ops}, "runs": []}
     states = distinct = 0
-    for root in (6, 0):
-        r = core.mc_run("FatFsB", MC_B_CFG % (n, root, ops, "{}"), wd, "%s-root%d" % (tag, root), workers=8)
+    for root, feats in ((6, "{}"), (0, '{"handles", "mount"}')):
+        r = core.mc_run("FatFsB", MC_B_CFG % (n, root, ops, "{}", feats), wd, "%s-root%d" % (tag, root), workers=8)
         if not r["ok"]:
             raise core.ToolError("FatFsB model checking failed (ROOT=%d):\n%s" % (root, r["out_tail"]))
-        out["runs"].append({"ROOT": root, "states": r["states"], "distinct": r["distinct"], "depth": r["depth"], "wall": r["wall"]})
+        out["runs"].append({"ROOT": root, "Features": feats, "states": r["states"], "distinct": r["distinct"], "depth": r["depth"], "wall": r["wall"]})
         states += r["states"]
         distinct += r["distinct"]
     out["states"] = states
@@ -848,9 +854,19 @@ def selftest(args):
         ok = ok and good
         print("%-22s expected %-32s got %-60s %s" % (name, sorted(want) or "-", sorted(got) or "-", "ok" if good else "MISSED"))
     legacy = {"rename_delete_first": "Refines", "no_dotdot_update": "StructInv", "no_capacity_check": "StructInv", "no_rollback": "StructInv",
-              "create_dir_leak": "StructInv", "rename_into_self": "Refines", "hint_past_end": "HintInRange"}
+              "create_dir_leak": "StructInv", "rename_into_self": "Refines", "hint_past_end": "HintInRange",
+              "fsinfo_not_dirty_on_free": "FsInfoExact", "no_dirty_flag_on_dir_write": "DirtyBracket"}
     for flag, prop in legacy.items():
-        r = core.mc_run("FatFsB", MC_B_CFG % (4, 6, 4, '{"%s"}' % flag), wd, "legacy")
+        if flag == "fsinfo_not_dirty_on_free":
+            # needs two sessions (allocate, unmount, mount, free only, unmount): six operations deep
+            r = core.mc_run("FatFsB", 'SPECIFICATION Spec\nCONSTANT N = 3\nCONSTANT SPC = 4\nCONSTANT ROOT = 0\nCONSTANT MaxOps = 6\nCONSTANT Features = {"mount"}\n'
+                            'CONSTANT Legacy = {"fsinfo_not_dirty_on_free"}\nINVARIANT FsInfoExact\nCHECK_DEADLOCK FALSE\n', wd, "legacy", workers=8)
+            good = (not r["ok"]) and prop in r["violated"]
+            ok = ok and good
+            print("FatFsB Legacy=%-22s expected counterexample to %-12s %s" % (flag, prop, "ok" if good else "MISSED"))
+            continue
+        r = core.mc_run("FatFsB", MC_B_CFG % (4, 0 if flag in ("fsinfo_not_dirty_on_free", "no_dirty_flag_on_dir_write") else 6, 4, '{"%s"}' % flag,
+                                               '{"handles", "mount"}' if flag in ("fsinfo_not_dirty_on_free", "no_dirty_flag_on_dir_write") else "{}"), wd, "legacy")
         good = (not r["ok"]) and prop in r["violated"]
         ok = ok and good
         print("FatFsB Legacy=%-22s expected counterexample to %-12s %s" % (flag, prop, "ok" if good else "MISSED"))
